@@ -157,6 +157,8 @@ class Inliner:
                 return None
             r = repo.resolve_expr(fn.module, f, fn.cls)
             if isinstance(r, FuncInfo) and r.cls is None:
+                if r.module is not fn.module:
+                    return None  # a helper imported from another module: its free names mean what they mean *there* - it is called, not spliced in
                 return r, None
             return None
         if isinstance(f, ast.Attribute) and f.attr.startswith("_") and not f.attr.startswith("__"):
